@@ -22,6 +22,10 @@ WORLD_A = {
     'C02': ('C02', 'exploration', {'quick': (32, 120), 'thorough': (480, 800)},
             'same generated models and workloads as C01, judged by the runtime-semantics oracle; distinct = distinct '
             'history digest; non-trivial = at least one event crossed the dispatcher'),
+    'C04': ('C04', 'exploration', {'quick': (20, 300), 'thorough': (240, 3000)},
+            'per generated multi-client (model, configuration): sequential histories of 5-40 claim/release/other/peer ops issued by '
+            'one driver task for 1-4 registered clients, alternating fault-free histories and histories with rogue releases and '
+            'denied claims; distinct = distinct history digest; non-trivial = at least one out-event was delivered to a client port'),
     'C09': ('C09', 'fault_enumeration', {'quick': (32, 30), 'thorough': (480, 200)},
             'per generated (model, configuration): exhaustive product {dispatcher present?} x {runtime present?} x {0,1,2 other '
             'services} of the user locator (12 construction worlds), then seeded workloads in the world where construction must '
